@@ -7,6 +7,9 @@ from vlib import b64, unb64
 CORR = "corr:comments (Model/Comments.v vs engine.Changelog.ChangedIntervals + cleanupFilePos, through the verif hook trace)"
 CORR_AD = "corr:astdiff (Model/AstDiff.v vs internal/astdiff + internal/diff, on the snapshots the verif hook renders at every step)"
 NOPOS = -(1 << 40)
+COND_NAMES = ["every declaration starts after NoPos and ends after it starts", "the declarations are in source order",
+              "every changed declaration's subtree lies within its extent", "the list's region starts after NoPos", "... and not after the first declaration",
+              "the file ends after every declaration starts", "no changed declaration's region ends before it starts"]
 
 PATCHES = {
     "expr": "@@\nvar x expression\n@@\n-foo(x)\n+bar(x)\n",
@@ -39,17 +42,21 @@ PATCHES = {
     "import-three-changes": "@@\nvar x expression\n@@\n+import \"example.com/some/long/path/newpkg\"\n\n-foo(x)\n+newpkg.Foo(x)\n\n@@\nvar x expression\n@@\n+import \"example.com/another/long/path/kept\"\n\n-keep(x)\n+kept.Keep(x)\n\n@@\nvar x expression\n@@\n-import \"os\"\n+import \"example.com/newos\"\n\n-os.Exit(x)\n+newos.Exit(x)\n",
     # several import declarations, the middle one deleted
     "import-delete-middle": "@@\nvar x expression\n@@\n-import \"os\"\n\n-os.Exit(x)\n+exit(x)\n",
+    # a replacement much longer than what it replaces, rewritten again by a later change of the same run
+    "grow-then-shrink": "@@\nvar x expression\n@@\n-foo(x)\n+\"" + "L" * 400 + "\"\n\n@@\n@@\n-\"" + "L" * 400 + "\"\n+short()\n",
+    "grow-then-edit": "@@\nvar x expression\n@@\n-foo(x)\n+pad(\"" + "L" * 300 + "\", x)\n\n@@\nvar y expression\nvar s expression\n@@\n-pad(s, y)\n+padded(y)\n",
     "two-changes": "@@\nvar x expression\n@@\n-foo(x)\n+bar(x)\n\n@@\nvar y expression\n@@\n-bar(y)\n+baz(y, 1)\n",
     "three-changes": "@@\nvar x expression\n@@\n-keep(x)\n+kept(x)\n\n@@\n@@\n-func target() error {\n+func renamed() error {\n   ...\n }\n\n@@\nvar y expression\n@@\n-foo(y)\n+bar(y)\n",
 }
 
 
-NEED = {"import-delete-middle": 7, "stmt-delete": 4, "lock": 5, "if-err": 6, "import-replace": 7, "two-stmts-away": 0, "import-two-changes": 7, "import-three-changes": 7}
+NEED = {"import-delete-middle": 7, "stmt-delete": 4, "lock": 5, "if-err": 6, "import-replace": 7, "two-stmts-away": 0, "import-two-changes": 7, "import-three-changes": 7, "grow-then-shrink": 9, "grow-then-edit": 9}
 
 
 def body_site(rng, i, need=None):
     forms = ["\tfoo(%d)", "\t_ = wrap(foo(%d))", "\tif ok {\n\t\tfoo(%d)\n\t}", "\tgo foo(%d)", "\tfoo(%d)\n\tdrop()", "\tmu.Lock()\n\tfoo(%d)\n\tmu.Unlock()",
-             "\tif err := foo(%d); err != nil {\n\t\treturn err\n\t}", "\tos.Exit(%d)", "\tdefer func() {\n\t\tfoo(%d)\n\t}()"]
+             "\tif err := foo(%d); err != nil {\n\t\treturn err\n\t}", "\tos.Exit(%d)", "\tdefer func() {\n\t\tfoo(%d)\n\t}()",
+             "\tm := map[string]string{\"k\": foo(%d)}\n\t_ = m"]
     if need is not None and rng.random() < 0.7:
         return forms[need] % i
     return rng.choice(forms) % i
@@ -249,6 +256,8 @@ def main():
         for si, s in enumerate(r.get("steps") or []):
             if s.get("snap_from") and s.get("snap_to"):
                 ad_cases.append("(astdiff (from %s) (to %s))" % (s["snap_from"], s["snap_to"])); ad_idx.append((i, si))
+    if os.environ.get("C17_DUMP_AD"):
+        open(os.environ["C17_DUMP_AD"], "w").write("\n".join(ad_cases[:400]) + "\n")
     ad_models = dict(zip(ad_idx, vlib.model(ad_cases))) if ad_cases else {}
     cli_sample = []
     for i, ((pn, p, f), r) in enumerate(zip(cases, res)):
@@ -315,6 +324,11 @@ def main():
             if rp[0] == "none":
                 ck.tally("astdiff_theorem", "no declaration list found"); continue
             ck.tally("astdiff_theorem", "side conditions of C17_identical_declaration hold" if rp[0] == "1" else "side conditions not met (a nested comment beyond its declaration, rewritten positions)")
+            conds = rp[1][1:]
+            rp = [rp[0]] + list(rp[2:])
+            for nm, b in zip(COND_NAMES, conds):
+                if b == "0":
+                    ck.tally("astdiff_side_condition_failed", nm)
             gone = set(c["off"] for c in (s["cbefore"] or [])) - set(c["off"] for c in (s["cafter"] or []))
             for j, att, clr, unclear in rp[1]:
                 ck.tally("identical_declarations", "comments attached=%s, all spans clear of them=%s, side conditions=%s" % (att, clr, rp[0]))
